@@ -28,6 +28,7 @@ RULE = ("one PRNG (VERIF_SEED) draws a DAG of 3-12 nodes (quick; up to 30 thorou
         "and re-subscribe inside the marking phase of a write; oracle only); a 'deep' family reads the far end of chains of 270-450 "
         "(thorough: up to 700) memos, a few links being small diamonds; a 'dynamic' family has memos (and effects) whose bodies "
         "create further memos (ArcMemo / arena Memo) at run time, re-created by every run of their creator (oracle only). "
+        "Since the anchor coverage audit half of the cases of every stream carry API VARIANTS on their nodes (fields the model's decoder does not read, so the traces are still compared with the model): every signal / memo / wrapper is read through one of get, with, *read(), track() + get_untracked(), try_get (and the untracked siblings); every signal is written through one of set, update, maybe_update(true), a write() guard, try_set, try_update, a SignalSetter (from(WriteSignal) / from(RwSignal) / map), update_untracked + notify, a MappedSignal / ArcMappedSignal view, write_untracked + notify (and notified through notify(), an untouched write guard or update(|_| {})); memos are built with new / new_with_compare, new_owning (the body returns the changed flag) or as the other handle type and converted; derived signals also as MaybeSignal::derive, MaybeProp (from / derive), Signal<Option<T>>::from, Signal::from(MaybeSignal), derive_local / stored_local / Signal<_, LocalStorage>::from, From<T>; effects also as Effect::new_sync, Effect::watch_sync, RenderEffect::new_isomorphic / new_with_value, ImmediateEffect::new_isomorphic / new_scoped / new_mut; an effect is also disposed through Dispose::dispose / Effect::stop on its handle; a case flag makes the executor hand out a NEW waker on every poll (older wakers are dead) and another one switches untrack to untrack_with_diagnostics. A 'wide' family has 17-40 direct subscribers on one signal; a 'silent' family (oracle only) interleaves operations that are NOT writes (maybe_update returning false, write().untrack(), try_maybe_update -> (false, _), update_untracked(|_| {}), a dropped write_untracked guard): values must stay. "
         "A case is non-trivial when some memo body ran at least twice; distinct = distinct case hash.")
 TRUSTED = [
     "Coq 8.16.1 kernel (coqc); no axioms: every theorem of Properties_C01.v is 'Closed under the global context'",
@@ -43,6 +44,7 @@ TRUSTED = [
     "ImmediateEffect is not part of the Coq model: the 'immediate' cases are checked by the Python oracle only; reads made "
     "inside the marking phase of a write (by an ImmediateEffect, its source check, or what they pull) are not checked: they "
     "see not-yet-marked memos by design; every read made after the write has returned is",
+    "API variants (coverage/C01.md, C09.md, C02.md): the variant fields of a case are ignored by the model's decoder (GraphRun.dec_decl / dec_op read the fields before them), so the model runs the construct each variant must be equivalent to (get for every read path, set for every write path, Effect::new for new_sync, Effect::watch for watch_sync, RenderEffect::new for new_isomorphic / new_with_value, owner cleanup for Dispose::dispose / Effect::stop); that equivalence is COMPARED (trace equality on every run) and judged by the Python oracle, NOT PROVED: the theorems speak about the modelled constructs",
 ]
 ASSUMPTIONS = [
     "single thread; user closures are deterministic and pure (memo bodies do not write signals)",
@@ -55,6 +57,7 @@ ASSUMPTIONS = [
     "deep graphs: MemoInner::mark_check re-propagates on every incoming path (guard != Dirty, always recurses), so the push "
     "phase over k stacked diamonds costs 2^k (a ladder of ~300 stacked diamonds does not return on the unchanged code: a "
     "performance cliff, not a wrong value); generated deep graphs are chains with at most 5 diamonds",
+    "an operation that does not notify is not a write: maybe_update / try_maybe_update whose closure returns false, a write() guard that is untracked before it is dropped, update_untracked / write_untracked without a following notify() leave the value as it is in the generated cases; a value stored without notification (update_untracked that really changes it) is outside the property (the graph cannot know) and is not generated",
 ]
 LEVEL_TEXT = ("Coq proofs about an executable Gallina transcription of MemoInner (mark_dirty / mark_check / update_if_necessary), "
               "the signal notification path, Track::track, untrack and derived signals, for all well-formed graphs and all "
@@ -87,6 +90,12 @@ def _main_stream(rng, tier):
             X.add_variants(rng, zc[0], 0.6)
             zc = X.with_flags(rng, zc[0], zc[1], 0.5)
         yield dict(case=C.norm(zc), kind="zones", compare=True)
+    # width: many direct subscribers of one signal (the subscriber set grows past its initial capacity)
+    for i in range(60 if tier == "quick" else 600):
+        wc = X.gen_wide_case(rng, rng.randint(17, 40), rng.choice([0, 0, 1, 2]))
+        if i % 2:
+            X.add_variants(rng, wc[0], 0.3)
+        yield dict(case=C.norm(wc), kind="wide", compare=True)
     # operations that are NOT writes (maybe_update returning false, write().untrack(), ...): values must stay
     for i in range(600 if tier == "quick" else 6000):
         prog = X.gen_program(rng, rng.randint(3, 9), rng.choice([0, 0, 1]), allow_wr=False, p_der=0.25)
@@ -111,7 +120,9 @@ def _main_stream(rng, tier):
             ops = X.gen_ops(rng, prog, rng.randint(6, 30), w=(0.35, 0.04, 0.3, 0.13, 0.14, 0.04)) + [[4]]
         else:
             ops = X.gen_ops(rng, prog, rng.randint(6, 30), w=(0.42, 0.05, 0.53, 0, 0, 0))
-        yield dict(case=C.norm([prog, ops]), kind="dynamic", compare=False)
+        if i % 2:
+            X.add_variants(rng, prog, 0.5)
+        yield dict(case=C.norm(X.with_flags(rng, prog, ops, 0.3 if i % 2 else 0)), kind="dynamic", compare=False)
 
 
 def generate(rng, tier):
